@@ -43,6 +43,9 @@ class Rec:
         if self.fmt == "pmf":        # a PMF that puts all mass on the chosen action, written with the ints 1 and 0
             self.log[-1].update(rp=1000, rk=NOVAL)
             return [1 if x is a or x == a else 0 for x in actions]
+        if self.fmt == "pmfx":       # a PMF whose entries sum to 1 only within the accepted tolerance: the probability reported is the entry as stated
+            self.log[-1].update(rp=1001, rk=NOVAL)
+            return [1.001 if x is a or x == a else 0.0 for x in actions]
         if self.fmt == "a": return a
         if self.fmt == "ap": return a, p
         return a, p, {"k": self.n}
@@ -125,7 +128,7 @@ def run(ctx):
             out_pred = (("action" in rec) or ("probability" in rec)) and ev
             if kind == "lognoact" and out_pred and not ((learn in ("on", "ips")) or ev == "on" or (ev == "ips" and not hs)): continue
             n = rng.choice([1, 3, 4]); ctxkind = rng.choice(["dense", "sparse", "scalar", "none"]); fn = rng.random() < .5; extra = rng.random() < .5
-            batch = rng.choice([0, 0, 2, 3]); fmt = rng.choice(["a", "ap", "apk", "apk", "pmf"]); ksize = None
+            batch = rng.choice([0, 0, 2, 3]); fmt = rng.choice(["a", "ap", "apk", "apk", "pmf", "pmfx"]); ksize = None
             if is_directed: n, batch, fmt, ksize = 10, 0, rng.choice(["pmf", "pmf", "ap"]), rng.choice([2, "pool"])
             elif rng.random() < .25: n, ksize = rng.choice([4, 8]), "pool"
             its, abst, ctx_id = make_env(rng, kind, n, ctxkind, fn, extra, ksize)
@@ -135,7 +138,7 @@ def run(ctx):
             if ctxkind == "none": batch = 0       # calls are attributed to interactions by their context
             if kind == "lognoact": batch = 0      # batches of interactions without an action set: not a meaningful input
             if "time" in rec: batch = 0           # timing columns are per call, not per interaction: out of scope when batched
-            if batch and fmt in ("a", "pmf"): fmt = "ap"   # how bare-action answers of a per-row fallback are re-assembled is C15's subject
+            if batch and fmt in ("a", "pmf", "pmfx"): fmt = "ap"   # how bare-action answers of a per-row fallback are re-assembled is C15's subject
             case["batch"] = batch
             try:
                 nrow = 0
